@@ -762,3 +762,20 @@ package bchutil
 //@   modifies nothing
 //@   assert after NewSlpAddressPubKeyHash#1: len($arg0) == 20 && $arg1 == params && (forall k :: 0 <= k && k < 20 ==> $arg0[k] == unbox(addr, "bchutil.*AddressPubKeyHash").hash[k]) && typeis(addr, "bchutil.*AddressPubKeyHash")
 //@   assert after NewSlpAddressScriptHashFromHash#1: len($arg0) == 20 && $arg1 == params && (forall k :: 0 <= k && k < 20 ==> $arg0[k] == unbox(addr, "bchutil.*AddressScriptHash").hash[k]) && typeis(addr, "bchutil.*AddressScriptHash")
+
+//@ func bchutil.NewTxFromReader
+//@   requires typeis(r, "bytes.*Reader")
+//@   ensures $calls_Deserialize == 1
+//@   ensures err == nil ==> result0 != nil && fresh(result0) && result0.msgTx != nil && fresh(result0.msgTx) && result0.txHash == nil && result0.txIndex == -1
+//@   ensures err != nil ==> result0 == nil
+//@   ensures *unbox(r, "bytes.*Reader") <= old(*unbox(r, "bytes.*Reader"))
+//@   modifies *unbox(r, "bytes.*Reader")
+//@   assert after Deserialize#1: $arg1 == r
+
+//@ func bchutil.NewTxFromBytes
+//@   ensures $calls_NewReader == 1 && $calls_NewTxFromReader == 1 && result0 == $ret0_NewTxFromReader#1 && err == $ret1_NewTxFromReader#1
+//@   ensures err == nil ==> result0 != nil && fresh(result0) && result0.msgTx != nil && result0.txHash == nil && result0.txIndex == -1
+//@   ensures err != nil ==> result0 == nil
+//@   modifies nothing
+//@   assert after NewReader#1: sameobj($arg0, serializedTx) && len($arg0) == len(serializedTx) && $arg0.off == serializedTx.off
+//@   assert after NewTxFromReader#1: typeis($arg0, "bytes.*Reader") && unbox($arg0, "bytes.*Reader") == $ret_NewReader#1
